@@ -84,6 +84,9 @@ def pcgrad(index, ctx):
     outer, inner = fors
     jvar = inner.target.id if isinstance(inner.target, ast.Name) else None
     ivar = outer.target.id if isinstance(outer.target, ast.Name) else None
+    if ivar is None and isinstance(outer.target, ast.Tuple) and outer.target.elts and isinstance(outer.target.elts[0], ast.Name) \
+            and isinstance(outer.iter, ast.Call) and isinstance(outer.iter.func, ast.Name) and outer.iter.func.id == "enumerate":
+        ivar = outer.target.elts[0].id  # for i, order in enumerate(orders)
     mut = inplace_mutated_names(inner.body)
     reads = backward_reads(inner.body, subject)
     carried = sorted((set(mut) & reads) - {jvar})
@@ -97,9 +100,26 @@ def pcgrad(index, ctx):
         u = upd[0]
         idx_ok = jvar in names_read(u.target.slice)
         val = u.value
+
+        def squared_norm_of_j(e):
+            """G[j, j], or d[j] where d is the diagonal of G (a local holding `G.diagonal()` / `torch.diag(G)` is looked through)."""
+            from ..astutil import inline_locals
+
+            if not isinstance(e, ast.Subscript):
+                return False
+            if norm_text(e.slice).replace(" ", "") in (f"{jvar},{jvar}", f"({jvar},{jvar})"):
+                return True
+            if norm_text(e.slice) != jvar:
+                return False
+            base = inline_locals(e.value, fn, keep={jvar or "", ivar or ""})
+            if isinstance(base, ast.Call):
+                f_ = base.func
+                nm = f_.attr if isinstance(f_, ast.Attribute) else (f_.id if isinstance(f_, ast.Name) else "")
+                return nm in ("diagonal", "diag")
+            return False
+
         form_ok = isinstance(u.op, ast.Sub) and isinstance(val, ast.BinOp) and isinstance(val.op, ast.Div) and \
-            (names_read(val.left) & (names_read(subject) | backward_reads(inner.body, subject))) and \
-            isinstance(val.right, ast.Subscript) and norm_text(val.right.slice).replace(" ", "") in (f"{jvar},{jvar}", f"({jvar},{jvar})")
+            (names_read(val.left) & (names_read(subject) | backward_reads(inner.body, subject))) and squared_norm_of_j(val.right)
         ctx.require(idx_ok and bool(form_ok) and base_name(u.target) in carried, "R1", "PCGrad: projection step",
                     f"`{norm_text(u)}`", f"the projection step `{norm_text(u)}` is not `w[j] -= <g_pc, g_j> / <g_j, g_j>` on the carried weight vector", _loc(fi, u))
     else:
@@ -143,8 +163,21 @@ def pcgrad(index, ctx):
                 "the projected weight vector is not accumulated exactly once after the projection loop", _loc(fi, outer))
     rnd = [n for n in ast.walk(outer) if isinstance(n, ast.Call) and norm_text(n.func).endswith("randperm")]
     inside = [n for n in rnd if any(x is n for x in ast.walk(outer))]
-    ctx.require(len(inside) == 1 and not any(any(x is n for x in ast.walk(inner)) for n in rnd), "R1", "PCGrad: one random order per projected row",
-                "randperm drawn once per outer iteration", "the projection order is not drawn exactly once per projected row", _loc(fi, outer))
+    per_row = len(inside) == 1 and not any(any(x is n for x in ast.walk(inner)) for n in rnd)
+    how = "randperm drawn once per outer iteration"
+    if not rnd:
+        # the orders drawn up front, one per row: `orders = [randperm(m) for _ in range(m)]`, and the outer loop walks that list
+        src = outer.iter
+        if isinstance(src, ast.Call) and isinstance(src.func, ast.Name) and src.func.id in ("enumerate", "zip") and src.args:
+            src = src.args[-1]
+        binds = [a for a in ast.walk(fn) if isinstance(a, ast.Assign) and len(a.targets) == 1 and isinstance(a.targets[0], ast.Name) and isinstance(src, ast.Name) and a.targets[0].id == src.id]
+        if len(binds) == 1 and isinstance(binds[0].value, ast.ListComp) and len(binds[0].value.generators) == 1 and not binds[0].value.generators[0].ifs \
+                and isinstance(binds[0].value.elt, ast.Call) and norm_text(binds[0].value.elt.func).endswith("randperm") \
+                and isinstance(binds[0].value.generators[0].iter, ast.Call) and norm_text(binds[0].value.generators[0].iter.func) == "range":
+            elem_names = {x.id for x in ast.walk(outer.target) if isinstance(x, ast.Name)} - {ivar}
+            per_row = bool(elem_names & names_read(inner.iter))
+            how = f"one randperm per row drawn up front (`{norm_text(binds[0])[:60]}`), the outer loop walks that list"
+    ctx.require(per_row, "R1", "PCGrad: one random order per projected row", how, "the projection order is not drawn exactly once per projected row", _loc(fi, outer))
 
 
 # ------------------------------------------------------------------------------------------------ GradDrop
@@ -388,7 +421,9 @@ def mgda(index, ctx, A, by_class):
     from ..normalize import fuse_generators
     import copy as _copy
 
-    fused = fuse_generators(fi.node, fi.module, index)
+    from ..normalize import split_walrus
+
+    fused = split_walrus(fuse_generators(fi.node, fi.module, index))  # `if (c := e) <= a:` reads `c = e; if c <= a:`
     if ast.dump(fused) != ast.dump(fi.node):
         fi = _copy.copy(fi)
         fi.node = fused
